@@ -158,7 +158,7 @@ func dischargeByConstruction(c *Ctx, le *LockEngine, fn *Fn, q lockReq) (bool, s
 	okAll := true
 	var why []string
 	for _, g := range c.P.Fns {
-		fl := le.flows[g]
+		fl := le.flows[orig(g)]
 		if fl == nil {
 			// function outside the engine's scope: a literal there cannot be justified
 			ast.Inspect(g.Body, func(n ast.Node) bool {
@@ -385,7 +385,7 @@ func runC13(c *Ctx, r *Report) {
 	for _, w := range ws {
 		bad := false
 		for _, s := range le.Splits {
-			if s.Fn.Root() == w {
+			if s.Fn.Root() == orig(w) {
 				bad = true
 			}
 		}
@@ -416,7 +416,7 @@ func runC13(c *Ctx, r *Report) {
 		if fn.Pkg.PkgPath != p.Mod {
 			continue
 		}
-		fl := le.flows[fn]
+		fl := le.flows[orig(fn)]
 		if fl == nil {
 			continue
 		}
